@@ -494,6 +494,12 @@ def rule_N3(ctx):
     cfg = f.cfg
     rds = list(f.calls("lbuf_rd"))
     if not rds:
+        # the read may live in a helper of the file: its call stands for the read
+        for c_ in f.calls():
+            h_ = prog.resolve(f, c_["fn"]) if c_.get("fn") else None
+            if h_ is not None and h_.file == f.file and h_ is not f and any(True for _ in h_.calls("lbuf_rd")):
+                rds.append(c_)
+    if not rds:
         raise AnalysisBroken("ec_edit does not call lbuf_rd")
     found = None
     for b in cfg.blocks.values():
